@@ -29,7 +29,7 @@ Item(n) ==
     [] n = "letd"    -> <<Let("d", Str(<<"l">>)), Emit(Id("d"))>>
 SubPart == <<Text(<<"s", ":">>), Emit(Id("d")), Emit(Id("o"))>>
 
-Comps == {"partial", "partial_js", "partial_html", "partial_nodata", "layout", "layout2", "layout_js", "nested", "cfor", "cfor_twice", "cfor_redefined",
+Comps == {"cfor_omit", "partial", "partial_js", "partial_html", "partial_nodata", "layout", "layout2", "layout_js", "nested", "cfor", "cfor_twice", "cfor_redefined",
           "cof_default", "cof_undefined", "cof_defined_default", "blk", "blkown", "blks"}
 CTs == {"none", "html", "js"}
 CT(c) == CASE c = "none" -> EmptyScope [] c = "html" -> [contentType |-> S(<<"t","e","x","t","/","h","t","m","l">>)]
@@ -58,6 +58,11 @@ Compose(c, body) ==
                               inline |-> <<Text(<<"|">>), Emit(CallB("blkown", <<DH>>, body))>>]
     [] c = "cfor_twice"   -> [prog |-> <<Code(CallB("contentFor", <<Str(<<"c">>)>>, body)), Emit(Call("contentOf", <<Str(<<"c">>), DH>>)), Text(<<"|">>), Emit(Call("contentOf", <<Str(<<"c">>), Hash(<<"d">>, <<Str(<<"2">>)>>)>>))>>, parts |-> EmptyScope,
                               inline |-> <<Emit(CallB("blkown", <<DH>>, body)), Text(<<"|">>), Emit(CallB("blkown", <<Hash(<<"d">>, <<Str(<<"2">>)>>)>>, body))>>]
+    \* the stored block rendered with data and then again without: nothing of the first rendering may remain
+    [] c = "cfor_omit"    -> [prog |-> <<Code(CallB("contentFor", <<Str(<<"c">>)>>, <<Emit(IfElse(Id("d"), <<Text(<<"y">>)>>, <<Text(<<"n">>)>>))>> \o body \o <<Let("k", IntL(1))>>)),
+                                         Emit(Call("contentOf", <<Str(<<"c">>), Hash(<<"d", "e">>, <<D, IntL(1)>>)>>)), Text(<<"|">>),
+                                         Let("d", Str(<<"t", "o", "p">>)), Emit(Call("contentOf", <<Str(<<"c">>)>>)), Emit(IfElse(Id("e"), <<Text(<<"L">>)>>, <<Text(<<"-">>)>>))>>, parts |-> EmptyScope,
+                              inline |-> <<>>]
     [] c = "cfor_redefined" -> [prog |-> <<Code(CallB("contentFor", <<Str(<<"c">>)>>, <<Text(<<"o", "l", "d">>)>>)), Code(CallB("contentFor", <<Str(<<"c">>)>>, body)), Emit(Call("contentOf", <<Str(<<"c">>), DH>>))>>, parts |-> EmptyScope,
                               inline |-> <<Emit(CallB("blkown", <<DH>>, body))>>]
     [] c = "cof_default"  -> [prog |-> <<Emit(CallB("contentOf", <<Str(<<"n">>), DH>>, body))>>, parts |-> EmptyScope, inline |-> <<Emit(CallB("blkown", <<DH>>, body))>>]
